@@ -74,6 +74,9 @@ def _mk_shapes():
         "function? name groups": (lambda: [Optional(Keyword("function")), Name(), OneOrMore(Balanced("(", ")"))],
                                   f"[Opt [Atom (PKeyword {pystr('function')})]; Atom PName; Plus [{bal}]]",
                                   [("optkw", "function"), ("name",), ("groups",)], ALPHA),
+        "groups": (lambda: [OneOrMore(Balanced("(", ")"))], f"[Plus [{bal}]]", [("groups",)], ALPHA),
+        "groups =>": (lambda: [OneOrMore(Balanced("(", ")")), Symbol("=>")], f"[Plus [{bal}]; Atom (PSymbol [61; 62])]",
+                      [("groups",), ("sym", "=>")], ALPHA_ARROW),
         "arrow": (lambda: [Optional(Keyword("const")), Name(), Operator("="), Optional(Keyword("async")),
                            OneOrMore(Balanced("(", ")")), Symbol("=>")],
                   f"[Opt [Atom (PKeyword {pystr('const')})]; Atom PName; Atom (POperator [61]); "
